@@ -1,10 +1,11 @@
 """C13 — section files: declared order, stream hand-off, leftovers kept verbatim."""
 import io
 import itertools
+import zlib
 import re
 
 from ..framework import Check
-from .. import blocklib as bl, lib
+from .. import blocklib as bl, lib, relib
 
 LINE_POOL = ["head", "END", "x END y", "", "data 1", "--", "B", "STOP", "média é €"]
 CR_POOL = ["a\r", "x\ry END", "\r"]
@@ -19,13 +20,17 @@ def nl_lines(s):
     return res
 
 
-def gen_secdefs(rng):
+WORDS = ["END", "STOP", "B", "x", "head", "data", "1", "--", " ", "\n", "é"]
+
+
+def gen_secdefs(rng, gen_re=False):
     out = []
     for _ in range(rng.randint(0, 4)):
         if rng.random() < 0.55:
-            out.append(["lines", rng.randint(0, 3), rng.choice("tthn"), rng.choice(["data", "data", "own"])])
+            out.append(["lines", rng.randint(0, 3), rng.choice("tthn"), rng.choice(["data", "data", "own", "init"])])
         else:
-            out.append(["until", rng.choice(bl.PATTERN_POOL), rng.choice("tthn"), rng.choice(["data", "data", "own"])])
+            pat = relib.gen_pattern(rng, WORDS, "ENDBx1 -\n\té\r", 3) if gen_re and rng.random() < 0.7 else rng.choice(bl.PATTERN_POOL)
+            out.append(["until", pat, rng.choice("tthn"), rng.choice(["data", "data", "own", "init"])])
     return out
 
 
@@ -38,7 +43,10 @@ class CHECK(Check):
             "newline: every content of <=4 lines (quick: <=3) over an 8-line pool for 12 fixed section lists (complete), plus "
             "random lists/contents of up to 12 lines. Observed: element types and raw data of SectionFile.read(content).data and "
             "the output of write. non-trivial = content shorter than the declared sections expect, or leftovers; distinct = hash"
-            " Later additions: section read() returning True/honest False/None, a third of the cases read from disk, carriage returns as ordinary characters, sections keeping what they read in an attribute of their own (data stays None).")
+            " Later additions: section read() returning True/honest False/None, a third of the cases read from disk, carriage returns as ordinary characters, sections keeping what they read in an attribute of their own (data stays None)."
+            " Round 11: sections whose storage is allocated by the constructor and only appended to by read(); 1-2 other contents read and "
+            "written through the same file class before the measured read (40 % of the random cases); 'until' patterns that are regular "
+            "expressions proper (pool + generated, see C12).")
 
     def gen(self, tier, rng):
         import random
@@ -50,14 +58,19 @@ class CHECK(Check):
                     for fin in ("\n", ""):
                         if n == 0 and fin == "":
                             continue
-                        if tier == "quick" and n == 3 and (hash(combo) % 3):
+                        if tier == "quick" and n == 3 and (zlib.crc32("\n".join(combo).encode()) % 3):
                             continue
                         yield {"secs": sds, "content": "\n".join(combo) + (fin if n else "")}
         for _ in range(1500 if tier == "quick" else 40000):
-            sds = gen_secdefs(rng)
+            sds = gen_secdefs(rng, rng.random() < 0.35)
             lines = [rng.choice(LINE_POOL + (CR_POOL if rng.random() < 0.3 else [])) for _ in range(rng.randint(0, 12))]
             bom = "\ufeff" if rng.random() < 0.06 else ""     # a byte-order mark at the start of in-memory content is a character
-            yield {"secs": sds, "content": bom + "\n".join(lines) + (rng.choice(["\n", "\n", ""]) if lines else "")}
+            case = {"secs": sds, "content": bom + "\n".join(lines) + (rng.choice(["\n", "\n", ""]) if lines else "")}
+            if rng.random() < 0.4:
+                # object history: 1-2 other contents were read (and written) through the same file class before
+                case["earlier"] = ["\n".join(rng.choice(LINE_POOL) for _ in range(rng.randint(0, 6))) + rng.choice(["\n", ""])
+                                   for _ in range(rng.randint(1, 2))]
+            yield case
 
     def impl(self, case):
         from cfinterface.components.defaultsection import DefaultSection
@@ -72,7 +85,9 @@ class CHECK(Check):
             with open(arg, "w", encoding="utf-8", newline="") as fh:
                 fh.write(case["content"])
         try:
-            with lib.budget(5000 + 600 * (len(case["content"]) + 1)):
+            with lib.budget(5000 + 600 * (len(case["content"]) + 1 + sum(len(c) + 1 for c in case.get("earlier", [])))):
+                for c0 in case.get("earlier", []):
+                    F.read(c0).write(io.StringIO())
                 f = F.read(arg)
                 elems = bl.canon_raw(f.data, DefaultSection, cap=len(case["content"]) + len(secs) + 5)
                 buf = io.StringIO()
@@ -137,8 +152,15 @@ class CHECK(Check):
 
     def classify(self, case):
         c = case["content"]
-        return {"sections_%d" % len(case["secs"]): 1, "lines_%02d" % min(12, c.count("\n") + (1 if c and not c.endswith("\n") else 0)): 1,
-                "final_newline" if c.endswith("\n") else "no_final_newline": 1}
+        d = {"sections_%d" % len(case["secs"]): 1, "lines_%02d" % min(12, c.count("\n") + (1 if c and not c.endswith("\n") else 0)): 1,
+             "final_newline" if c.endswith("\n") else "no_final_newline": 1}
+        if case.get("earlier"):
+            d["earlier_reads_through_the_same_file_class"] = 1
+        if any(len(sd) > 3 and sd[3] == "init" for sd in case["secs"]):
+            d["section_storage_allocated_by_the_constructor"] = 1
+        if any(sd[0] == "until" and not relib.is_legacy(sd[1]) for sd in case["secs"]):
+            d["with_regular_expression_patterns"] = 1
+        return d
 
     def signature(self, case, why):
         return re.sub(r"[0-9]+", "#", why)
@@ -153,6 +175,11 @@ class CHECK(Check):
             c = dict(case)
             c["secs"] = case["secs"][:i] + case["secs"][i + 1:]
             yield c
+        if case.get("earlier"):
+            for i in range(len(case["earlier"])):
+                c = dict(case)
+                c["earlier"] = case["earlier"][:i] + case["earlier"][i + 1:]
+                yield c
 
     def neighbours(self, case, rng):
         return []
